@@ -16,9 +16,9 @@ ASSUMPTIONS = ["ET.tostring escapes & < > in element text (trusted stdlib)"]
 
 
 def run(project, rep):
-    L.l_r1_decimal(project, rep)
-    L.l_r2_escaping(project, rep)
-    L.l_r3_shapes(project, rep)
-    Z.z_r2_naive(project, rep)
-    T.t_r3(project, rep)
-    T.t_r5(project, rep)
+    rep.run(L.l_r1_decimal, project, rep)
+    rep.run(L.l_r2_escaping, project, rep)
+    rep.run(L.l_r3_shapes, project, rep)
+    rep.run(Z.z_r2_naive, project, rep)
+    rep.run(T.t_r3, project, rep)
+    rep.run(T.t_r5, project, rep)
